@@ -130,6 +130,9 @@ type restartResult struct {
 	Exit   int
 	Stderr string
 	Dump   *wl.Dump
+	// Second: when the start-up set a WAL file aside (*.tmp), the observation of one more
+	// start-up on the same directory ("replayed once": it must find nothing to do)
+	Second *restartResult
 }
 
 // restartOn runs mkrestart on root for the given bucket specs. A restart that does not finish
@@ -201,6 +204,14 @@ func (cr *crashRun) materializeAndRestart(k int, v *crashfs.Variant, specsA, spe
 		return &restartResult{Exit: -3, Stderr: "materialize: " + err.Error()}, nil, root
 	}
 	a = restartOn(root, specsA, "A")
+	if a.OK {
+		for _, f := range a.Dump.WALFiles {
+			if strings.HasSuffix(f, ".tmp") {
+				a.Second = restartOn(root, specsA, "A2")
+				break
+			}
+		}
+	}
 	if a.OK && len(specsB) > 0 {
 		b = restartOn(root, specsB, "B")
 	}
